@@ -1,6 +1,7 @@
 """C10 — primitive distance functions: feasible, consistent (structural clauses)."""
 import ast
 
+from . import scopes
 from ..core.report import DOMAIN_D
 from ..rules import roles, loops, eager, degree, frame, mirror
 from ..engines.signs import Signs, NONNEG, ZERO
@@ -10,14 +11,15 @@ DIST = "distance3d.distance"
 
 
 def run(idx, rep, tier):
+    rep.set_scope(scopes.scope(idx, "C10"))
     rep.explanation = (
         "R-API: distance3d.distance.__all__ names 34 functions, each bound to a definition. R-NONNEG (sign lattice, engine "
         "signs): the returned distance of every public function is >= 0 by construction (norm / sqrt / abs / 0.0 / a callee's "
         "distance), evaluated with the default flags. R-TRIPLE / R-ROLE / R-ROLEAGREE (role flow): composite functions take "
         "distance and points from ONE sub-query and return the points in the order of the primitives, mapping callee results "
         "through the argument groups of each call. R-MIRROR: the two halves of the line-to-box case analysis are mirror images under i0<->i1. R-HANG (engine E4): every loop of the package is CAP or STRUCT with literal "
-        "or parameter bounds. R-EAGER (engine E1) on the calls into explicitly typed compiled helpers. R-DEGREE / R-RETDEGREE "
-        "(engine E3). R-FRAME / R-FRAMERET (engine E2) for the functions that evaluate in a local frame (box, cylinder, ellipsoid). "
+        "or parameter bounds. R-EAGER (engine E1) on the calls into explicitly typed compiled helpers. R-RETDEGREE "
+        "(engine E3: returned distance and points have length degree 1). R-FRAME / R-FRAMERET (engine E2) for the functions that evaluate in a local frame (box, cylinder, ellipsoid). "
         "Membership of arithmetically constructed leaf points within 1e-9 L, NaN-freedom and 'never raises' beyond "
         "signature conformance are NOT decided.")
     rep.assumptions = DOMAIN_D + ["primitive domain P: unit directions/normals, default epsilon arguments"]
@@ -51,5 +53,7 @@ def run(idx, rep, tier):
     fr_rets = e2(idx)
     frame.r_frame(idx, rep, fr_rets, modules=set(mods) | {"distance3d.utils"}, floor=40)
     frame.r_frame_contracts(idx, rep, fr_rets, ("distance", "utils"), floor=8, unknown_ceiling=4)
-    dg = degree.r_degree(idx, rep, modules=mods + ["distance3d.geometry", "distance3d.utils"], floor=40)
+    # only the RETURN degrees belong to C10 (a squared distance or a direction in a point slot breaks |p1-p2| = d); inner
+    # inhomogeneities are C11/C12 matter (the fixed line_to_circle error kept its points on the primitives)
+    dg, _ = degree.run_engine(idx, mods + ["distance3d.geometry", "distance3d.utils"], None)
     degree.r_return_degrees(idx, rep, dg)
